@@ -14,7 +14,9 @@ RULE = ('BFS over histories of evaluate(access path) on the real compiler (paths
         'states deduplicated by canonical key (= which nodes are built/cached); every element of every returned '
         'structure compared type-strictly with the value of that cell in one fixed reference order on a fresh model; '
         'each evaluate is repeated once and must return the same; plus literal enumeration of all permutations of '
-        'first-evaluation order of the formula cells. distinct_nontrivial = transitions whose path covered at least '
+        'first-evaluation order of the formula cells; plus BFS over histories that also write (set_value on inputs, '
+        'override of a formula cell, recalculate) with the invariant that evaluate(range) agrees with its member cells '
+        'in every state. distinct_nontrivial = transitions whose path covered at least '
         'one formula cell that was not yet cached (a first evaluation through that path).')
 ASSUMPTIONS = ['reference = evaluate(cell) cell by cell in address order on a fresh in-memory compile',
                'shape trimming as documented: n x 1 and 1 x n ranges return flat tuples']
@@ -235,6 +237,87 @@ def work(job):
     return acc.result()
 
 
+class PC(explore.Problem):
+    """histories that also write (set_value on inputs, override of a formula cell, recalculate): after every
+    operation all access paths must still agree with each other (no reference values involved)"""
+
+    def __init__(self, fam):
+        self.fam, self.spec = fam, fam['spec']
+        forms = W.formula_cells(self.spec)
+        self.rpaths = (fam['ranges'] + fam['unbounded'])[:3]
+        self.ops = [('ev', a) for a in fam['cells']] + [('ev', r) for r in self.rpaths] + \
+                   [('set', i, v) for i in fam['inputs'][:2] for v in (7, None)] + \
+                   [('set', c, 99) for c in forms[:2]] + [('recalc',)]
+        self.checked = 0
+
+    def new(self):
+        return {'m': W.compile_inmem(self.spec)}
+
+    def step(self, st, op):
+        m = st['m']
+        try:
+            if op[0] == 'ev':
+                return ('ok', m.evaluate(op[1]))
+            if op[0] == 'recalc':
+                m.recalculate()
+                return ('recalc',)
+            m.set_value(op[1], op[2])
+            return ('set',)
+        except AssertionError as exc:
+            return ('refused',) if 'not found in the cell map' in str(exc) else ('exc', 'AssertionError', str(exc)[-150:])
+        except Exception as exc:
+            return ('exc', type(exc).__name__, str(exc)[-150:])
+
+    def members(self, addr):
+        sh, ref = W.split_addr(addr)
+        a, b = ref.split(':')
+        if W.CELL_RE.match(a) and W.CELL_RE.match(b):
+            return [[f'{sh}!{c}' for c in row] for row in W.range_cells(ref)]
+        mc_, mr = W.used_range(self.spec, sh)
+        if a.isdigit():
+            return [[f'{sh}!{W.rc_cell(c, int(a))}' for c in range(1, mc_ + 1)]]
+        return [[f'{sh}!{a}{r}'] for r in range(1, mr + 1)]
+
+    def check(self, st, hist, op, obs):
+        if obs[0] == 'exc':
+            return f'{op} raised {obs[1]}: {obs[2]}'
+        m = st['m']
+        for r in self.rpaths:
+            if r not in m.cell_map:
+                continue          # the path was not brought into the model yet
+            try:
+                rv = m.evaluate(r)
+                grid = self.members(r)
+                cells = [[m.evaluate(c) for c in row] for row in grid]
+            except Exception as exc:
+                return f'after {op}: evaluating {r} and its member cells raised {type(exc).__name__}: {str(exc)[-120:]}'
+            self.checked += 1
+            if not W.veq(_norm(rv), _norm(trim(cells))):
+                return (f'after {op}: evaluate({r}) = {W.show(rv)} but its member cells evaluate to {W.show(trim(cells))}')
+        return None
+
+    def canon(self, st):
+        return explore.canon_compiler(st['m'])
+
+    def case(self, hist, op, obs):
+        return dict(kind='consistency', wb=self.fam['name'], origin='inmem', fam=_strip(self.fam),
+                    hist=[list(o) for o in hist], op=list(op), exc=obs[1] if obs[0] == 'exc' else None, observed=jsonable(obs))
+
+
+def work_consistency(job):
+    fam, depth, max_states = job
+    acc = Acc()
+    p = PC(fam)
+    res = explore.bfs(p, depth, acc, max_states=max_states)
+    acc.add('states', res['states'])
+    acc.add('transitions', res['transitions'])
+    acc.add('evaluations', res['transitions'])
+    acc.add('traces_validated_against_impl', res['transitions'])
+    acc.add('distinct_nontrivial', p.checked)
+    acc.add('consistency_jobs_capped', int(res['capped']))
+    return acc.result()
+
+
 def work_perm(job):
     fam, = job
     acc = Acc()
@@ -280,6 +363,7 @@ def run(ctx):
     k = ctx.seed % len(jobs)
     ctx.pmap(work, jobs[k:] + jobs[:k], timeout=3000)
     ctx.pmap(work_perm, [(f,) for f in fams], timeout=3000)
+    ctx.pmap(work_consistency, [(f, 4 if ctx.thorough else 3, 30000) for f in fams if f['ranges'] or f['unbounded']], timeout=3000)
     if ctx.thorough:
         ctx.pmap(work_perm, [(f,) for f in family.enumerated()], timeout=3000)
     ctx.extra['exhaustive'] = ctx.counts.get('jobs_capped', 0) == 0
@@ -304,6 +388,16 @@ def replay(case):
             bad |= not ok
             lines.append(f'  evaluate({a}) -> {v!r}   reference {e!r} {"" if ok else "  <-- differs"}')
         return bad, '\n'.join(lines)
+    if case['kind'] == 'consistency':
+        p = PC(fam)
+        st = p.new()
+        lines = [f"workbook {fam['name']} cells={fam['spec']['sheets']}"]
+        msg = None
+        for o in [tuple(x) for x in case['hist']] + [tuple(case['op'])]:
+            r = p.step(st, o)
+            msg = p.check(st, (), o, r)
+            lines.append(f'  {o} -> {r!r}' + (f'   <-- {msg}' if msg else ''))
+        return bool(msg), '\n'.join(lines)
     tmp = tempfile.mkdtemp(prefix='c05r_')
     try:
         p = P(fam, case['origin'], tmp)
